@@ -132,6 +132,13 @@ def handleC15 : List String → Option String
     let nodes ← nodes.mapM parseZNode
     let evts := signZoneNsec { nsecConsts with cutTypes := (cut == .intended) } v origin nodes signer
     some ("ok " ++ (if evts.isEmpty then "-" else " ".intercalate (evts.map showEvt)))
+  | "c15.chainspec" :: origin :: nodes => do
+    let origin ← parseName origin
+    let nodes ← nodes.mapM parseZNode
+    let L := insSort (fun a b => nameLe a.name b.name) nodes
+    let (a, b, c, d) := chainHyps L
+    let sec := secure nsecConsts origin L
+    some (s!"ok {a} {b} {c} {d} " ++ (if sec.isEmpty then "-" else ";".intercalate (sec.map fun z => showName z.name)))
   | ["c15.nsecrdata", next, origin, ts] => do
     let next ← parseName next
     let origin ← parseOptName origin
